@@ -62,9 +62,9 @@ func (t1 *Taskfile) Merge(t2 *Taskfile, include *Include) error {
 	t1.Vars.Merge(t2.Vars, include)
 	t1.Env.Merge(t2.Env, include)
 	// The defaults the included Taskfile declares for its tasks (method, run,
-	// silent) go with them: once merged, the tasks are no longer in that file
-	// and only the defaults of the root Taskfile would be looked at.
-	t2.Tasks.setDefaults(t2.Method, t2.Run, t2.Silent)
+	// silent, set, shopt) go with them: once merged, the tasks are no longer in
+	// that file and only the defaults of the root Taskfile would be looked at.
+	t2.Tasks.setDefaults(t2.Method, t2.Run, t2.Silent, t2.Set, t2.Shopt)
 	return t1.Tasks.Merge(t2.Tasks, include, t2.Vars)
 }
 
